@@ -112,6 +112,9 @@ ParseVerdict(c) ==
   (IF r.class = "infra" THEN <<"INFRA:" \o r.why>> ELSE <<>>)
   \o (IF c.outcome # "ok" /\ ~(c.outcome = "hang" /\ r.class = "grey" /\ r.why = "many zero-byte elements")
       THEN <<"C03:outcome:" \o c.outcome>> ELSE <<>>)
+  \* a visitor may keep the strings it is handed by value; the value of the document is what it holds when the call returns
+  \o (IF c.strmut > 0 THEN <<P \o ":a string delivered by value no longer had its value when the parser returned",
+                              "C15:a string delivered by value changed while the parser went on">> ELSE <<>>)
   \o (IF c.measure /\ c.alloc > AllocBound(c) THEN <<"C03:allocation out of proportion">> ELSE <<>>)
   \o (IF c.measure /\ c.nev > EventBound(c) /\ r.class # "grey" THEN <<"C03:events out of proportion">> ELSE <<>>)
   \o (IF r.class = "incomplete" /\ KnowsEnd(c) /\ c.outcome = "ok" /\ ~Refused(c)
@@ -158,6 +161,7 @@ EncodeVerdict(c, P) ==
   (IF c.outcome # "ok" THEN <<P \o ":outcome:" \o c.outcome>> ELSE <<>>)
   \o (IF ~CWellFormed(ExpandAll(in), NValues(in)) \/ CRun(ExpandAll(in)).stk # <<>>
       THEN <<"INFRA:generated stream is not well-formed">> ELSE <<>>)
+  \o (IF c.strmut > 0 THEN <<"C01:a parsed string delivered by value no longer had its value when the parser returned">> ELSE <<>>)
   \o (IF c.outcome = "ok" /\ fe # 0 /\ fe <= nenc /\ ~refusalOK
       THEN <<P \o ":encoder returned an error on a well-formed stream">> ELSE <<>>)
   \o (IF c.outcome = "ok" /\ fe = 0 /\ c.fmt = "json" /\ ~c.opts.ignf /\ HasNonFin(in) /\ r.class # "complete"
@@ -248,6 +252,12 @@ ExtCmpVerdict(c) ==
       THEN IF cons = "plain"
            THEN (IF ~CWellFormed(x.evA, NValues(in)) THEN <<"C09:contract:" \o CRun(x.evA).why \o " (adapter expansion)">> ELSE <<>>)
                 \o (IF ~SeqEquiv(R, want, Values(x.evA)) THEN <<"C10:adapter expansion denotes a different value">> ELSE <<>>)
+           ELSE IF cons = "unfold"
+           THEN \* the unfolder as a consumer (one interface{} target per top-level value; by-reference data is
+                \* overwritten by the driver right after each callback)
+                (IF x.valA # x.valB THEN <<"C10:the unfolder builds a different value from the extended events than from their expansion">> ELSE <<>>)
+                \o (IF Len(x.valA) # NValues(in) THEN <<"C10:the unfolder did not complete one value per top-level value of the stream">> ELSE <<>>)
+                \o (IF x.depA # x.depB THEN <<"C10:consumer left in a different state (nesting depths differ)">> ELSE <<>>)
            ELSE LET ra == Ref(cons, c.out, c.numtab)  rb == Ref(cons, x.outB, c.numtab) IN
                 (IF ra.class = "infra" \/ rb.class = "infra" THEN <<"INFRA:numtab">> ELSE <<>>)
                 \o (IF ra.class # "complete" \/ ra.done # NValues(in) THEN <<"C10:extended run wrote an invalid document (" \o ra.class \o " " \o ra.why \o ")">>
